@@ -230,8 +230,18 @@ def t1_validate(ctx, table):
             want_pos = [v.get("param") for v in e["fwd"]["pos"]]
             got_kw = {k: next((p for p, s in sent.items() if s is v), None) for k, v in seen["kwargs"].items()}
             got_pos = [next((p for p, s in sent.items() if s is v), None) for v in seen["args"]]
-            if {k: v for k, v in got_kw.items() if v is not None} != want_kw or [p for p in got_pos] != want_pos \
-                    or set(seen["kwargs"]) != {k for k, _ in e["fwd"]["kw"]}:
+            # the table states the call in the CALLEE's terms (positional prefix, sorted keywords), the wrapper may spell it differently:
+            # both are bound to the real method's signature and compared parameter by parameter (which own parameter reaches which
+            # parameter of the method, and which parameters of the method are supplied at all)
+            try:
+                msig = inspect.signature(definer.__dict__[m])
+                tb = msig.bind(None, *want_pos, **{k: v.get("param") for k, v in e["fwd"]["kw"]}).arguments
+                rb = msig.bind(None, *got_pos, **got_kw).arguments
+                differs = tb != rb
+            except (TypeError, ValueError, KeyError):
+                differs = ({k: v for k, v in got_kw.items() if v is not None} != want_kw or [p for p in got_pos] != want_pos
+                           or set(seen["kwargs"]) != {k for k, _ in e["fwd"]["kw"]})
+            if differs:
                 ctx.fail("A", "T1:forward", case, f"table pos {want_pos} kw {want_kw}; recorded pos {got_pos} kw {got_kw}")
             used = set(got_kw.values()) | set(got_pos)
             dropped = [p for p in rest if p not in used]
